@@ -76,6 +76,25 @@ func runEntry(b *build.Built, c *ExecCase, text, entry string, plan **graphql.Pl
 		lr.Root = root
 		lr.Res = graphql.Execute(graphql.ExecuteParams{Schema: b.Schema, Root: root, AST: doc, OperationName: c.OpName,
 			Args: c.goVars(), Context: ctx})
+	case "cache", "cachenorm":
+		// through a plan cache that first served the same document behind other leading /
+		// trailing whitespace: what it hands out must belong to this text
+		pc := graphql.NewPlanCache(graphql.PlanCacheOptions{Normalize: entry == "cachenorm"})
+		for _, variant := range []string{"\n\n    " + text, text + "\n\n", "\r\n\t" + text, " " + text} {
+			pc.Get(&b.Schema, variant, c.OpName)
+		}
+		pr := pc.Get(&b.Schema, text, c.OpName)
+		if pr.Plan == nil {
+			lr.Res = &graphql.Result{Errors: pr.Errors}
+			break
+		}
+		args := c.goVars()
+		for k, v := range pr.SynthArgs {
+			args[k] = v
+		}
+		root := &ref.Tok{Type: "root", ID: ""}
+		lr.Root = root
+		lr.Res = graphql.ExecutePlan(pr.Plan, graphql.ExecuteParams{Schema: b.Schema, Root: root, OperationName: c.OpName, Args: args, Context: ctx})
 	case "plan":
 		if *plan == nil {
 			doc, err := parseText(text)
